@@ -3,6 +3,7 @@ package eval
 import (
 	"errors"
 	"fmt"
+	"reflect"
 	"strconv"
 	"strings"
 	"time"
@@ -310,7 +311,22 @@ func (c comparison) execute(_ *Ctx, params []Value) (Value, error) {
 	}
 }
 
+// errUncomparable reports lists, sets and other values that cannot be
+// compared with ==, comparing them would panic at run time
+func errUncomparable(m mode, params []Value) error {
+	for _, p := range params {
+		if p != nil && !reflect.TypeOf(p).Comparable() {
+			return ParamTypeError(modeNames[m], "comparable value", p)
+		}
+	}
+	return nil
+}
+
 func comparisonEquals(_ *Ctx, params []Value) (Value, error) {
+	if err := errUncomparable(equals, params); err != nil {
+		return nil, err
+	}
+
 	if len(params) == 2 {
 		return params[0] == params[1], nil
 	}
@@ -331,6 +347,10 @@ func comparisonEquals(_ *Ctx, params []Value) (Value, error) {
 func comparisonNotEquals(_ *Ctx, params []Value) (Value, error) {
 	if len(params) != 2 {
 		return nil, errCnt2(notEquals, params)
+	}
+
+	if err := errUncomparable(notEquals, params); err != nil {
+		return nil, err
 	}
 
 	return params[0] != params[1], nil
